@@ -1,2 +1,2 @@
 SPECIFICATION TSpec
-INVARIANTS SOutcome SPrevFlag SLog
+INVARIANTS SOutcome SPrevFlag SStampUse SLog
